@@ -245,7 +245,7 @@ class H:
 
     # ---------------------------------------------------------------- discharge
     def solver(self, uf=False):
-        s = z3.Solver() if uf else z3.SolverFor('QF_BV')
+        s = z3.Solver() if (uf or getattr(self.eng, 'uses_fp', False)) else z3.SolverFor('QF_BV')
         s.set('timeout', int(self.timeout_s * 1000))
         seed = int(os.environ.get('VERIF_SEED', '0') or 0)
         try:
